@@ -346,6 +346,27 @@ def compare_trees(a, b, exact=True):
     return None
 
 
+def jtok(doc):
+    """canonical tokens of a JSON document (object keys sorted), as Json.tok_json"""
+    if doc is None:
+        return [0]
+    if isinstance(doc, (bool, int, float)):
+        return [2] + ftok(doc)          # numbers by value: a bool is 0/1
+    if isinstance(doc, str):
+        return [3] + tok_str(doc)
+    if isinstance(doc, (list, tuple)):
+        out = [4, len(doc)]
+        for x in doc:
+            out += jtok(x)
+        return out
+    if isinstance(doc, dict):
+        out = [5, len(doc)]
+        for k in sorted(doc, key=lambda s: str(s).encode("utf-8")):
+            out += tok_str(str(k)) + jtok(doc[k])
+        return out
+    raise TypeError("not JSON: %r" % (doc,))
+
+
 def exc_class(e):
     n = type(e).__name__
     if n in ("ContainerException",):
@@ -422,6 +443,34 @@ class Machine:
             c = p[op[1]].copy()
             p.append(c)
             return [0] + snap(c)
+        if t == "tojson":
+            import json as _json
+            doc = p[op[1]].toJson()
+            try:
+                _json.dumps(doc, allow_nan=False)
+            except ValueError:
+                return [8]            # not strict JSON (a raw NaN/Infinity in the document)
+            return jtok(doc)
+        if t == "fromjson":
+            try:
+                c = hg.Factory.fromJson(op[1])
+                ob = [0] + jtok(c.toJson())
+            except Exception as e:  # noqa: BLE001
+                self.exc.append(exc_class(e))
+                p.append(hg.Count())
+                return [1]
+            p.append(c)
+            return ob
+        if t == "jsonrt":
+            try:
+                c = hg.Factory.fromJson(p[op[1]].toJson())
+                ob = [0] + snap(c)
+            except Exception as e:  # noqa: BLE001
+                self.exc.append(exc_class(e))
+                p.append(hg.Count())
+                return [1]
+            p.append(c)
+            return ob
         if t == "hash":
             try:
                 hash(p[op[1]])
